@@ -439,7 +439,7 @@ BINDINGS = {
         ('INSERT', 'null'),
     ],
     ('syntactic_behaviour_senses', '<row produced when>'): [
-        ('INSERT', 'over dict[SyntacticBehaviour.subcategorizationFrame: SyntacticBehaviour.senses?=[] over param:synbhrs]', 'over dict[SyntacticBehaviour.subcategorizationFrame: SyntacticBehaviour.senses?=[] over param:synbhrs][SyntacticBehaviour.subcategorizationFrame]'),
+        ('INSERT', 'over dict[SyntacticBehaviour.subcategorizationFrame: SyntacticBehaviour.senses?=[] over param:synbhrs]', 'over SyntacticBehaviour.senses?=[]'),
     ],
     ('syntactic_behaviour_senses', 'sense_rowid'): [
         ('INSERT', 'senses', 'each(SyntacticBehaviour.senses?=[])', 'lid(each(SyntacticBehaviour.senses?=[]))'),
